@@ -17,14 +17,17 @@ def tie_grids(ctx):
     from fractions import Fraction as Fr
     import itertools
     vals = [(Fr(0), None), (Fr(1), None), (Fr(1, 2), [Fr(1, 2)]), (Fr(1, 2), [Fr(1, 4), Fr(1, 4)]),
-            (Fr(3, 10), [Fr(3, 10)]), (Fr(3, 10), [Fr(1, 10), Fr(2, 10)]), (Fr(3, 4), [Fr(1, 2), Fr(1, 4)])]
+            (Fr(3, 10), [Fr(3, 10)]), (Fr(3, 10), [Fr(1, 10), Fr(2, 10)]), (Fr(3, 4), [Fr(1, 2), Fr(1, 4)]),
+            # sums that land one ulp below / above the directly written value
+            (Fr(8, 10), [Fr(8, 10)]), (Fr(8, 10), [Fr(7, 10), Fr(1, 10)]), (Fr(6, 10), [Fr(6, 10)]), (Fr(6, 10), [Fr(4, 10), Fr(2, 10)]),
+            (Fr(9, 10), [Fr(9, 10)]), (Fr(9, 10), [Fr(6, 10), Fr(3, 10)]), (Fr(7, 10), [Fr(7, 10)]), (Fr(7, 10), [Fr(1, 10), Fr(6, 10)])]
     out = []
     kmax = 3 if ctx.quick else 4
     for kind in (P1, P2):
         for k in range(1, kmax + 1):
             combos = list(itertools.product(range(len(vals)), repeat=k))
-            if ctx.quick and len(combos) > 120:
-                combos = ctx.rng.sample(combos, 120)
+            if ctx.quick and len(combos) > 160:
+                combos = ctx.rng.sample(combos, 160)
             for combo in combos:
                 n = k + 3
                 F, S = k + 1, k + 2
